@@ -24,7 +24,7 @@ META = {
 }
 
 # fingerprints of the functions Gate.v models (tree with the nine fix: commits)
-FP_EXPECTED = {'_verify': 'ee43172ee8d732bf', '_walk': '5f656ab83b2c913f', '_get_rules': 'b3af5f2c56d4916b', 'rule_01': 'a4f8a84cc773b29f', 'rule_02': '8439d504243be0f7', 'rule_03': 'aa7f95c1e8f84ed9', 'rule_04': '061f18bacdd7b273', 'rule_05': 'b9c2f146446011a3', 'rule_06': 'f2ec9add2492e7a4', 'rule_07': 'f58cae7763d83ac4', 'rule_08': 'a1c113ec311d634d', 'rule_09': '8b8e955e05cce001', 'rule_10': 'd7bae0eb424c13b6', 'rule_11': '6079ff89c825cec7'}
+FP_EXPECTED = {'_verify': 'b798f9fc45776205', '_walk': 'db7434ca38d4b299', '_get_rules': '07af45ba35b33a21', 'rule_01': 'c94f6c4ab2458440', 'rule_02': '684959be5d6a3594', 'rule_03': '02324aeb568980f0', 'rule_04': '7ab3117f6488064d', 'rule_05': '429e3c334ac93200', 'rule_06': '47e497b298542e55', 'rule_07': 'a6d5c33f2bd466eb', 'rule_08': '2973302685ed7b45', 'rule_09': 'a2c0c8a762f249c9', 'rule_10': '78f5a4901f01e365', 'rule_11': '94dfba2aeca76262'}
 FP_FUNCS = ['_verify', '_walk', '_get_rules'] + ['rule_%02d' % i for i in range(1, 12)]
 
 
